@@ -1,5 +1,6 @@
 import IwModel.Model.Format
 import IwModel.Lemmas.FormatEnc
+import IwModel.Lemmas.Format
 /-! # C03 — a cleanly closed store reopens with identical contents
 
 Reopen = reading the closed file. The writer side of the format (Model/FormatEnc.lean, tied byte for
@@ -7,7 +8,7 @@ byte to real files by `drv fmt reenc`) and the reader (Model/Format.lean, the co
 files) are inverse to each other: record by record (`*_roundtrip`), for a whole node
 (`node_contents_roundtrip`) and for a whole database laid out in a file (`reopen_contents`). -/
 namespace IwModel.C03
-open IwModel IwModel.FormatEnc
+open IwModel IwModel.FormatEnc IwModel.Format
 
 /-- **Node record round trip.** Whatever `_sblk_sync_mm` writes for a well-formed node over *any* previous content
 of the 256-byte record (stale `n[]`/`lk` tails included), `_sblk_at2` reads back exactly. -/
@@ -17,91 +18,22 @@ theorem sblk_roundtrip_over (old : Bytes) (s : SblkRec) (hold : old.length = Gen
   rw [← hold] at hw
   have hlen : (encSblkOver old s).length = Gen.SBLK_SZ := by
     rw [encSblkOver, length_pokes _ _ hw.1, hold]
-  have rd : ∀ w ∈ sblkWrites s, peek (encSblkOver old s) w.1 w.2.length = w.2 := peek_pokes_mem old _ hw
-  have f0 := rd (Gen.SOFF_FLAGS_U1, [s.flags]) (by simp [sblkWrites])
-  have f1 := rd (Gen.SOFF_LVL_U1, [s.lvl]) (by simp [sblkWrites])
-  have f2 := rd (Gen.SOFF_LKL_U1, [s.lkl]) (by simp [sblkWrites])
-  have f3 := rd (Gen.SOFF_PNUM_U1, [s.pnum]) (by simp [sblkWrites])
-  have f4 := rd (Gen.SOFF_P0_U4, leEnc 4 s.p0) (by simp [sblkWrites])
-  have f5 := rd (Gen.SOFF_KBLK_U4, leEnc 4 s.kblk) (by simp [sblkWrites])
-  have f6 := rd (Gen.SOFF_PI0_U1, s.piAll) (by simp [sblkWrites])
-  have f7 := rd (Gen.SOFF_N0_U4, encU4s s.n) (by simp [sblkWrites])
-  have f8 := rd (Gen.SOFF_BPOS_U1_V2, [s.bpos]) (by simp [sblkWrites])
-  have f9 := rd (Gen.SOFF_LK_V2, s.lk) (by simp [sblkWrites])
-  simp only [List.length_cons, List.length_nil, Nat.zero_add, length_leEnc, h.pi_len, h.lk_len, length_encU4s, h.n_len] at f0 f1 f2 f3 f4 f5 f6 f7 f8 f9
-  have hl := h.lvl; have hk := h.lkl; have hp := h.pnum
-  have hn := decU4s_encU4s s.n [] h.n
-  rw [List.append_nil, h.n_len] at hn
-  simp only [decSblk, byte, hlen, f0, f1, f2, f3, f4, f5, f6, f7, f8, f9, leDec_single, Nat.lt_irrefl, if_false,
-    leDec_leEnc4 _ h.p0, leDec_leEnc4 _ h.kblk, hn]
-  rw [if_neg (by omega)]
+  exact decSblk_of_reads _ s hlen h (peek_pokes_mem old _ hw)
 
 /-- **Data block header + index round trip** (`_kvblk_sync_mm` / `_kvblk_at_mm`), whatever follows the index. -/
 theorem kvindex_roundtrip (k : KvIndex) (rest : Bytes) (h : WfKvIndex k) :
     decKvIndex (encKvIndex k ++ rest) = some k := by
-  have hd := decSlotsE_enc k.slots h.slots (encKvIndex k ++ rest) ([k.szpow] ++ leEnc 2 k.idxsz) rest []
-    (by simp [encKvIndex, List.append_assoc])
-  rw [h.slots_len] at hd
-  have hpre : ([k.szpow] ++ leEnc 2 k.idxsz).length = Gen.KVBLK_HDRSZ := by simp [Gen.KVBLK_HDRSZ]
-  rw [hpre] at hd
-  have h0 : peek (encKvIndex k ++ rest) KOFF_SZPOW 1 = [k.szpow] := by simp [peek, encKvIndex, KOFF_SZPOW]
-  have h1 : peek (encKvIndex k ++ rest) KOFF_IDXSZ 2 = leEnc 2 k.idxsz := by
-    simp only [peek, encKvIndex, KOFF_IDXSZ, List.append_assoc, List.cons_append, List.nil_append, List.drop_succ_cons, List.drop_zero]
-    rw [List.take_append_of_le_length (by simp), List.take_of_length_le (by simp)]
-  simp only [decKvIndex, decKvIndexE, byte, h0, h1, hd, leDec_single, leDec_leEnc2 _ h.idxsz_lt]
-  rw [if_neg (by have := h.idxsz; simp; omega)]
-  simp [Except.toOption]
+  simp [decKvIndex, decKvIndexE_enc k rest h, Except.toOption]
 
 /-- **Record round trip**: `[klen:vn,key,value]` written by `_kvblk_addkv`, read with the slot length, whatever
 follows the record. -/
 theorem kv_roundtrip (k v rest : Bytes) (hk : k.length < 2 ^ 63) :
     decKv (encKv k v ++ rest) (encKv k v).length = some (k, v) := by
-  have h1 := vnumAt_enc (encKv k v ++ rest) [] (k ++ v ++ rest) k.length (by simp [encKv, List.append_assoc])
-    (enc_length_le_buf _ hk)
-  simp only [List.length_nil] at h1
-  simp only [decKv, decKvE, h1]
-  have hl : (encKv k v).length = (Vnum.enc k.length).length + k.length + v.length := by simp [encKv]; omega
-  rw [if_neg (by omega)]
-  have e1 : peek (encKv k v ++ rest) (Vnum.enc k.length).length k.length = k := by
-    simp only [peek, encKv, List.append_assoc]
-    rw [List.drop_left', List.take_left'] <;> rfl
-  have e2 : peek (encKv k v ++ rest) ((Vnum.enc k.length).length + k.length)
-      ((encKv k v).length - (Vnum.enc k.length).length - k.length) = v := by
-    have : (encKv k v).length - (Vnum.enc k.length).length - k.length = v.length := by omega
-    rw [this]
-    simp only [peek, encKv, List.append_assoc]
-    rw [← List.length_append, ← List.append_assoc, List.drop_left', List.take_left'] <;> rfl
-  simp [Except.toOption, e1, e2]
+  simp [decKv, decKvE_enc k v rest hk, Except.toOption]
 
 /-- **Database header round trip** (`_db_save` + database branch of `_sblk_sync_mm` / `_db_at`). -/
 theorem dbhdr_roundtrip_over (old : Bytes) (d : DbHdr) (hold : old.length = Gen.DOFF_END) (h : WfDbHdr d) :
-    decDbHdr (encDbHdrOver old d) = some d := by
-  have hw := dbHdrWrites_wf d h
-  rw [← hold] at hw
-  have hlen : (encDbHdrOver old d).length = Gen.DOFF_END := by
-    rw [encDbHdrOver, length_pokes _ _ hw.1, hold]
-  have rd : ∀ w ∈ dbHdrWrites d, peek (encDbHdrOver old d) w.1 w.2.length = w.2 := peek_pokes_mem old _ hw
-  have f0 := rd (Gen.DOFF_MAGIC_U4, leEnc 4 Gen.IWDB_MAGIC) (by simp [dbHdrWrites])
-  have f1 := rd (Gen.DOFF_DBFLG_U1, [d.flags]) (by simp [dbHdrWrites])
-  have f2 := rd (Gen.DOFF_DBID_U4, leEnc 4 d.id) (by simp [dbHdrWrites])
-  have f3 := rd (Gen.DOFF_NEXTDB_U4, leEnc 4 d.next) (by simp [dbHdrWrites])
-  have f4 := rd (Gen.DOFF_P0_U4, leEnc 4 d.p0) (by simp [dbHdrWrites])
-  have f5 := rd (Gen.DOFF_N0_U4, encU4s d.n) (by simp [dbHdrWrites])
-  have f6 := rd (Gen.DOFF_C0_U4, encU4s d.c) (by simp [dbHdrWrites])
-  have f7 := rd (Gen.DOFF_METABLK_U4, leEnc 4 d.metaBlk) (by simp [dbHdrWrites])
-  have f8 := rd (Gen.DOFF_METABLKN_U4, leEnc 4 d.metaBlkn) (by simp [dbHdrWrites])
-  simp only [List.length_cons, List.length_nil, Nat.zero_add, length_leEnc, length_encU4s, h.n_len, h.c_len] at f0 f1 f2 f3 f4 f5 f6 f7 f8
-  have hn := decU4s_encU4s d.n [] h.n
-  have hc := decU4s_encU4s d.c [] h.c
-  rw [List.append_nil, h.n_len] at hn
-  rw [List.append_nil, h.c_len] at hc
-  have hm : leDec (leEnc 4 Gen.IWDB_MAGIC) = Gen.IWDB_MAGIC := leDec_leEnc4 _ (by decide)
-  simp only [decDbHdr, byte, hlen, f0, f1, f2, f3, f4, f5, f6, f7, f8, leDec_single, Nat.lt_irrefl, if_false,
-    leDec_leEnc4 _ h.id, leDec_leEnc4 _ h.next, leDec_leEnc4 _ h.p0, leDec_leEnc4 _ h.metaBlk, leDec_leEnc4 _ h.metaBlkn,
-    hn, hc, hm, ne_eq, not_true_eq_false]
-
-/-- the field widths of the allocator header add up to the generated header size -/
-theorem fsm_layout_total : FOFF_END = Gen.IWFSM_CUSTOM_HDR_DATA_OFFSET := by decide
+    decDbHdr (encDbHdrOver old d) = some d := dbhdr_dec_enc_over old d hold h
 
 /-- **Allocator header round trip** (`_fsm_write_meta_lw` / `_fsm_read_meta_lr`). -/
 theorem fsmhdr_roundtrip (f : FsmHdr) (h : WfFsmHdr f) : decFsmHdr (encFsmHdr f) = some f := by
@@ -151,6 +83,31 @@ theorem sblk_enc_bytes (s : SblkRec) (h : WfSblk s) : (encSblk s).length = Gen.S
   · exact encU4s_wf _
   · exact wf_single _ h.bpos
   · exact h.lk
+
+/-- every store of a well-formed write list is in the memory afterwards -/
+theorem holds_after_writes (old : Bytes) (ws : List (Nat × Bytes)) (h : WfWrites old.length ws) :
+    (pokes old ws).length = old.length ∧ ∀ w ∈ ws, Holds (pokes old ws) w := by
+  have hl := length_pokes old ws h.1
+  exact ⟨hl, fun w hw => ⟨by rw [hl]; exact h.1 w hw, peek_pokes_mem old ws h w hw⟩⟩
+
+/-- **Reopen reads back what close left in the file.** Take any database image `d` the C code can have
+written (`WfDbImg`: field ranges of the C types, level-0 links threading the nodes, every slot naming a
+record of its length, and the *layout*: all stores inside the file and pairwise disjoint), write it over
+arbitrary old file content with the stores of the C writers (`dbWrites`: database block, metadata, node
+records, data-block indexes, records at `block_end - off`), and run the reader that audits real files
+(`Format.parseDb`) on the result: it returns exactly `d` — same id, flags, links, counters, nodes, and the
+records of every node in `pi` order — and the metadata bytes. -/
+theorem reopen_contents (old : Bytes) (d : DbImg) (mdata : Bytes) (h : WfDbImg old.length d mdata) :
+    parseDb (Mem.ofBytes (writeDb old d mdata)) d.blk = .ok d ∧
+    metaOf (Mem.ofBytes (writeDb old d mdata)) d mdata.length = mdata := by
+  obtain ⟨hl, hh⟩ := holds_after_writes old (dbWrites d mdata) h.writes
+  exact parseDb_ok (writeDb old d mdata) d mdata (by rw [writeDb, hl]; exact h) hh
+
+/-- … in particular the flattened record list, the id and the flags -/
+theorem reopen_records (old : Bytes) (d : DbImg) (mdata : Bytes) (h : WfDbImg old.length d mdata) :
+    (parseDb (Mem.ofBytes (writeDb old d mdata)) d.blk).map (fun r => (r.id, r.flags, r.nodes.flatMap (·.recs))) =
+      .ok (d.id, d.flags, d.nodes.flatMap (·.recs)) := by
+  rw [(reopen_contents old d mdata h).1]; rfl
 
 example : WfSblk { flags := 1, lvl := 2, lkl := 3, pnum := 2, p0 := 70000, kblk := 12345678,
                    piAll := 5 :: 0 :: List.replicate 30 7, n := [9, 0, 4000000000], bpos := 16, lk := [1, 255, 0] } := by
